@@ -492,4 +492,13 @@ def numeric_facts(v0, v1, sim0, sim1, env) -> Dict[str, Any]:
             cap = per_s * dt
             facts["plugmax"] = q(cap, E_SCALE)
             facts["gain_le_plug"] = bool(d_gain <= cap * (1 + 1e-9) + 1e-12)
+        st1 = sim1.stations.get(st_id) if st_id is not None else None
+        if st is not None and st1 is not None:
+            # both sides of the transfer compared on the unrounded floats (C05): what the vehicle gained is what the
+            # station's meter for that energy type moved by, and what the vehicle paid is what the station received
+            d_disp = st1.energy_dispensed.get(et, 0.0) - st.energy_dispensed.get(et, 0.0)
+            d_paid = v0.balance - v1.balance
+            d_recv = st1.balance - st.balance
+            facts["disp_ok"] = bool(abs(d_disp - d_gain) <= 1e-9 * max(1.0, abs(d_gain)))
+            facts["pay_ok"] = bool(abs(d_recv - d_paid) <= 1e-9 * max(1.0, abs(d_paid)))
     return facts
